@@ -542,6 +542,128 @@ func c12Proc(js string) c12ProcObs {
 	return o
 }
 
+// ---------------------------------------------------------------- a run restarted under a different harvest configuration
+
+type c12RestartObs struct {
+	First  []int64 `json:"first"`  // periods (ns) of the timers of the first run
+	Second []int64 `json:"second"` // ... of the run the application was reconnected with
+	Note   string  `json:"note,omitempty"`
+}
+
+// c12Restart drives the REAL processor: the application connects (reply js1), a harvest of that run is answered with a
+// restart verdict (409), the application reconnects (reply js2).  The timers created for the second run must be the ones
+// js2 asks for (seeded/C12f2: the trigger of the first reply was kept).
+func c12Restart(js1, js2 string) (o c12RestartObs) {
+	o.First, o.Second = []int64{}, []int64{}
+	var mu sync.Mutex
+	connects := 0
+	restarting := false
+	calls := []string{}
+	withRun := func(js string, run string) []byte {
+		t := strings.TrimSpace(js)
+		if t == "{}" {
+			return []byte(`{"agent_run_id":"` + run + `"}`)
+		}
+		return []byte(`{"agent_run_id":"` + run + `",` + t[1:])
+	}
+	client := collector.ClientFn(func(cmd *collector.RpmCmd, cs collector.RpmControls) collector.RPMResponse {
+		cs.Collectible.CollectorJSON(false)
+		mu.Lock()
+		defer mu.Unlock()
+		calls = append(calls, cmd.Name)
+		switch cmd.Name {
+		case collector.CommandPreconnect:
+			return collector.RPMResponse{StatusCode: 200, Body: []byte(`{"redirect_host":"coll.example"}`)}
+		case collector.CommandConnect:
+			connects++
+			if connects == 1 {
+				return collector.RPMResponse{StatusCode: 200, Body: withRun(js1, "c12-one")}
+			}
+			return collector.RPMResponse{StatusCode: 200, Body: withRun(js2, "c12-two")}
+		}
+		if restarting {
+			return collector.RPMResponse{StatusCode: 409, Err: fmt.Errorf("verif: restart")}
+		}
+		return collector.RPMResponse{StatusCode: 202}
+	})
+	p := NewProcessor(ProcessorConfig{Client: client})
+	p.appConnectBackoff = time.Millisecond
+	go p.Run()
+	defer func() {
+		done := make(chan struct{})
+		go func() { p.CleanExit(); close(done) }()
+		select {
+		case <-done:
+		case <-time.After(3 * time.Second):
+			o.Note += "CleanExit did not return; "
+		}
+	}()
+	info := &AppInfo{License: "0123456789012345678901234567890123456789", Appname: "c12-restart", AgentLanguage: "php",
+		AgentVersion: "1", Hostname: "h", Environment: JSONString(`[]`), Labels: JSONString(`[]`),
+		Settings: map[string]interface{}{"newrelic.distributed_tracing_enabled": false}}
+	info.AgentEventLimits.LogEventConfig.Limit = 20000
+	info.AgentEventLimits.SpanEventConfig.Limit = 10000
+	info.AgentEventLimits.CustomEventConfig.Limit = 100000
+	connectAs := func(want string) bool {
+		for t0 := time.Now(); time.Since(t0) < 4*time.Second; time.Sleep(2 * time.Millisecond) {
+			rep := p.IncomingAppInfo(nil, info)
+			mu.Lock()
+			n := connects
+			mu.Unlock()
+			if rep.State == AppStateConnected && ((want == "c12-one" && n == 1) || (want == "c12-two" && n >= 2)) {
+				return true
+			}
+		}
+		return false
+	}
+	periods := func() []int64 {
+		out := []int64{}
+		for _, tk := range c12WaitTickers() {
+			out = append(out, int64(tk.d))
+		}
+		return out
+	}
+	c12Reset()
+	if !connectAs("c12-one") {
+		o.Note += "first connect failed (the reply may be refused: negative limit); "
+		return
+	}
+	o.First = periods()
+	// a harvest of run one is answered with a restart verdict
+	mu.Lock()
+	restarting = true
+	mu.Unlock()
+	op := vpOp{Run: 0, Prio: 1, Items: []vpItem{{Cat: "metrics", Tag: 1, Key: 1, Slot: 0}}}
+	for id := range p.harvests {
+		if _, err := (CommandsHandler{Processor: p}).HandleMessage(RawMessage{Type: MessageTypeBinary, Bytes: vpBuildTxn(string(id), &op)}); err != nil {
+			o.Note += "txn: " + err.Error() + "; "
+		}
+	}
+	time.Sleep(5 * time.Millisecond)
+	c12Reset() // from here on only the timers of the second run are recorded (the processor reconnects by itself)
+	ticked := false
+	for id, ah := range p.harvests { // (the reply may carry a run id of its own)
+		p.processorHarvestChan <- ProcessorHarvest{AppHarvest: ah, ID: id, Type: HarvestDefaultData}
+		ticked = true
+		break
+	}
+	if !ticked {
+		o.Note += "no app harvest for the first run; "
+	}
+	c12Quiesce(c12Wait)
+	mu.Lock()
+	restarting = false
+	mu.Unlock()
+	if !connectAs("c12-two") {
+		mu.Lock()
+		o.Note += fmt.Sprintf("the application did not reconnect (connect requests so far: %d; runs held: %d; calls %v); ", connects, len(p.harvests), calls)
+		mu.Unlock()
+		return
+	}
+	o.Second = periods()
+	return
+}
+
 // ---------------------------------------------------------------- entry point
 
 func TestVerifC12(t *testing.T) {
@@ -566,6 +688,10 @@ func TestVerifC12(t *testing.T) {
 		Proc []struct {
 			Json string `json:"json"`
 		} `json:"proc"`
+		Restarts []struct {
+			Json1 string `json:"json1"`
+			Json2 string `json:"json2"`
+		} `json:"restarts"`
 	}
 	raw, err := ioutil.ReadFile(inPath)
 	if err != nil {
@@ -579,7 +705,9 @@ func TestVerifC12(t *testing.T) {
 		Lts   []c12LtsObs  `json:"lts"`
 		Zero  []c12ZeroObs `json:"zero"`
 		Proc  []c12ProcObs `json:"proc"`
+		Restarts []c12RestartObs `json:"restarts"`
 	}
+	out.Restarts = []c12RestartObs{}
 	out.Plans, out.Lts, out.Zero, out.Proc = []c12PlanObs{}, []c12LtsObs{}, []c12ZeroObs{}, []c12ProcObs{}
 	// a panic in one of the daemon's goroutines (e.g. send on a closed channel) kills the test binary:
 	// the case being run is recorded first so that the driver can name it
@@ -601,6 +729,10 @@ func TestVerifC12(t *testing.T) {
 	for i, c := range in.Proc {
 		progress("proc", i)
 		out.Proc = append(out.Proc, c12Proc(c.Json))
+	}
+	for i, c := range in.Restarts {
+		progress("restarts", i)
+		out.Restarts = append(out.Restarts, c12Restart(c.Json1, c.Json2))
 	}
 	ob, _ := json.Marshal(out)
 	if err := ioutil.WriteFile(outPath, ob, 0644); err != nil {
